@@ -374,7 +374,24 @@ def dense_child(cx, name, dims):
     return A.fresh(cx, name, dims, FLOAT)
 
 
+def transposed_dense_child(cx, name, dims):
+    """An array of symbolic reals whose single chunk is laid out with the position axes REVERSED relative to the array axes
+    (chunk arrays of shape dims[::-1]; index k reads position axis ndim-1-k): a valid denotation that a child may deliver."""
+    f = A.fresh(cx, name, dims, FLOAT)
+    r = len(dims)
+    rev = lambda pos: tuple(pos[::-1])
+    idx = []
+    for k in range(r):
+        base = A.Range(cx, dims[k])
+        idx.append(PA(tuple(dims[::-1]), (lambda pos, k=k: pos[r - 1 - k]), INT, name='%s.index%d' % (name, k), unaligned=(base, (r - 1 - k,))))
+    val = PA(tuple(dims[::-1]), lambda pos: f.at(rev(pos)), FLOAT, name=name + '.T')
+    f.attrs['_assparse'] = ((*idx, val),)
+    return f
+
+
 def child(cx, kind, name, dims, **kw):
+    if kind == 'denseT':
+        return transposed_dense_child(cx, name, dims)
     return sparse_child(cx, name, dims, **kw) if kind == 'sparse' else dense_child(cx, name, dims)
 
 
@@ -390,6 +407,8 @@ class NumpyConcrete:
             return lambda ctx, a, v: tuple(bisect.bisect_left(ints(a), x) for x in ints(v))
         if name == 'arange':
             return lambda ctx, *a: tuple(range(*[int(x) for x in a]))
+        if name == 'argsort':
+            return lambda ctx, a: tuple(sorted(range(len(ints(a))), key=ints(a).__getitem__))
         raise Unsupported('numpy.' + name)
 
 
@@ -496,6 +515,25 @@ def _scenarios():
                     return r
                 return node('Sum', dims[:-1], at, func=f)
             add('Sum', 'func=%s%s' % (kind, dims), b)
+    for dims in ((2, 3), (2, 3, 2)):
+        def b(cx, dims=dims):
+            f = child(cx, 'denseT', 'func', dims)
+            n = dims[-1]
+
+            def at(J):
+                r = z3.RealVal(0)
+                for j in range(n):
+                    r = r + f.at(J + (z3.IntVal(j),))
+                return r
+            return node('Sum', dims[:-1], at, func=f)
+        add('Sum', 'func=dense%s,chunk-axes-reversed' % (dims,), b)
+
+    def shared(cx):
+        f1 = sparse_child(cx, 'func1', (2, 3))
+        chunks = tuple((*ch[:-1], A.fresh(cx, 'func2.chunk%d.values' % j, (2,), FLOAT)) for j, ch in enumerate(f1.attrs['_assparse']))
+        f2 = PA((2, 3), A.scatter(chunks, 2), FLOAT, name='func2', attrs={'_assparse': chunks})
+        return node('Add', (2, 3), lambda J: f1.at(J) + f2.at(J), funcs=(f1, f2), _terms=(f1, f2))
+    add('Add', 'terms=sparse+sparse-with-the-same-index-arrays,shape=(2, 3)', shared)
     for dims in ((3,), (2, 3)):
         add('Zeros', 'shape=%s' % (dims,), lambda cx, dims=dims: node('Zeros', dims, lambda J: z3.RealVal(0)))
     for kinds in (('sparse', 'sparse'), ('sparse', 'dense'), ('dense', 'dense')):
